@@ -42,6 +42,8 @@ type c03script struct {
 	// C08: ReadTimeout = NoTimeout and a handshake timeout shorter than the first gap, so that
 	// any deadline left on the connection by the handshake would be crossed.
 	noTimeout bool
+	// warm: an earlier exchange on the same client (see env.warm)
+	warm string
 }
 
 var errSentinel = errors.New("callback sentinel failure")
@@ -119,6 +121,7 @@ func drawScript(rt *rapid.T) c03script {
 		s.items = append(s.items, Item{Kind: "eos"})
 	}
 	s.ctxDeadline = rapid.Bool().Draw(rt, "ctx-with-far-deadline")
+	s.warm = rapid.SampledFrom(warmKinds).Draw(rt, "earlier-exchange")
 	s.onResult = rapid.Bool().Draw(rt, "on-result")
 	s.onProgress = rapid.Bool().Draw(rt, "on-progress")
 	s.onProfile = rapid.Bool().Draw(rt, "on-profile")
@@ -271,6 +274,7 @@ func runScript(rt *rapid.T, s c03script, segsFor func(i int, n int) []int, gapAf
 
 func runScriptOpts(rt *rapid.T, s c03script, segsFor func(i int, n int) []int, gapAfter func(i int) time.Duration, shortReadTimeout bool) (c03outcome, *env) {
 	e := newEnv(s.serverRev)
+	e.warm = s.warm
 	N := min(s.clientRev, s.serverRev)
 	var out c03outcome
 	x := s.model(N)
@@ -448,8 +452,8 @@ func (s c03script) describe() string {
 	for _, it := range s.items {
 		items = append(items, it.String())
 	}
-	return fmt.Sprintf("[%s] ctx-deadline=%v binding=%s comp=%s client=%d server=%d callbacks(result=%v progress=%v profile=%v events=%v event=%v logs=%v log=%v) failAt=%v",
-		strings.Join(items, " "), s.ctxDeadline, s.binding, s.comp.Name, s.clientRev, s.serverRev, s.onResult, s.onProgress, s.onProfile, s.onEvents, s.onEvent, s.onLogs, s.onLog, s.failAt)
+	return fmt.Sprintf("[%s] earlier-exchange=%q ctx-deadline=%v binding=%s comp=%s client=%d server=%d callbacks(result=%v progress=%v profile=%v events=%v event=%v logs=%v log=%v) failAt=%v",
+		strings.Join(items, " "), s.warm, s.ctxDeadline, s.binding, s.comp.Name, s.clientRev, s.serverRev, s.onResult, s.onProgress, s.onProfile, s.onEvents, s.onEvent, s.onLogs, s.onLog, s.failAt)
 }
 
 func judgeC03(rt *rapid.T, s c03script, out c03outcome) {
